@@ -1516,7 +1516,12 @@ class Cell(Bucket):
         if name not in self.identity_groups:
             self.identity_groups[name] = IdentityGroup(count)
         else:
-            self.identity_groups[name].adjust(count)
+            group = self.identity_groups[name]
+            group.adjust(count)
+            # Growing after a shrink must not re-offer identities still held.
+            for app in six.itervalues(self.apps):
+                if app.identity_group_ref is group and app.identity is not None:
+                    group.available.discard(app.identity)
 
     def remove_identity_group(self, name):
         """Remove identity group.
